@@ -93,3 +93,95 @@ Theorem c17_drop_absent_level_noop :
     run_mapping_model cell rng cache_ok mk_decide t {| cfg_drop := None; cfg_flatten := f |} tb cells g.
 Proof. exact drop_absent_noop. Qed.
 Print Assumptions c17_drop_absent_level_noop.
+
+(* The completed cells are root-to-leaf paths of the STORED tree, whatever the reduction
+   (none, any droppable level, flatten, both, an absent level): for every decision procedure
+   that answers with children of the parent it was asked about, every taxonomy meeting
+   tree_ok (C01) that the validator accepts, every configuration that reduce accepts: a
+   successful run satisfies the property's executable statement spec_c17 — one cell per
+   query cell; every stored level present and nothing else; the assignments form a path of
+   the stored tree; the levels of the reduced tree (m) are flagged directly_assigned and
+   carry runner-up fields; every other level is flagged inferred, carries none, holds
+   parent_of (stored tree) of the next finer assignment and that level's numbers. *)
+Theorem c17_backfilled_path :
+  forall (cell rng : Type) (cache_ok : tree -> Markers.table -> bool)
+         (mk_decide : tree -> Markers.table -> rng -> option (nat * node) -> list node -> list cell -> list rec * rng),
+    (forall t1 tb1 g p kids cs, Forall (fun r => In (asg r) kids) (fst (mk_decide t1 tb1 g p kids cs))) ->
+    forall (t : tree) (c : cfg) (tb : Markers.table) (cells : list cell) (g : rng)
+           (t' : tree) (m : list nat) (rows : list cellmap) (g' : rng),
+      tree_ok t -> validate t = true ->
+      reduce t c = TOk (t', m) ->
+      run_mapping_model cell rng cache_ok mk_decide t c tb cells g = TOk (rows, g') ->
+      spec_c17 t m (length cells) rows = true.
+Proof. exact backfilled_path. Qed.
+Print Assumptions c17_backfilled_path.
+
+(* ---------------- non-vacuity: a 4-level taxonomy with a single top node, a single-child
+   chain (10 -> 100) and a single-child parent (110 -> 1100) ---------------- *)
+Definition ex_tree : tree :=
+  [ [(1, [10; 11])];
+    [(10, [100]); (11, [110; 111])];
+    [(100, [1000; 1001]); (110, [1100]); (111, [1110; 1111])];
+    [(1000, [0]); (1001, [1]); (1100, [2]); (1110, [3]); (1111, [4])] ].
+Definition ex_decide (_ : tree) (_ : Markers.table) (g : nat) (p : option (nat * node)) (kids : list node) (cs : list Z)
+  : list rec * nat :=
+  (map (fun c => {| asg := if Z.even c then hd 0 kids else last kids 0; prob := (3, 4); corr := Some (1, 2);
+                    runners := [(if Z.even c then last kids 0 else hd 0 kids, (1, 4), (1, 8))]; agg := one |}) cs, S g).
+Definition ex_run := run_mapping_model Z nat (fun _ _ => true) ex_decide.
+Definition ex_tb : Markers.table := [(None, [5; 3]); (Some (1%nat, 11), [3; 7])].
+
+Example c17_example_hypotheses :
+  validate ex_tree = true /\
+  (exists t', drop_level ex_tree 0 = TOk t') /\ (exists t', drop_level ex_tree 1 = TOk t') /\
+  (exists t', drop_level ex_tree 2 = TOk t') /\
+  drop_level ex_tree 3 = TErr E_LEAF /\ drop_level ex_tree 4 = TErr E_NOLEVEL.
+Proof. vm_compute. repeat split; eexists; reflexivity. Qed.
+
+(* dropping the middle level 1: the reduced run and the dropping run, side by side *)
+Example c17_example_drop :
+  match drop_level ex_tree 1 with
+  | TOk t' =>
+      match ex_run t' {| cfg_drop := None; cfg_flatten := false |} ex_tb [5; 6; 7] 0%nat,
+            ex_run ex_tree {| cfg_drop := Some 1%nat; cfg_flatten := false |} ex_tb [5; 6; 7] 0%nat with
+      | TOk (rowsB, gB), TOk (rowsA, gA) =>
+          gA = gB /\
+          map (fun a => map (fun k => option_map o_asg (lookup k a)) [0; 1; 2; 3]%nat) rowsA
+            = [[Some 1; Some 11; Some 111; Some 1111]; [Some 1; Some 10; Some 100; Some 1000]; [Some 1; Some 11; Some 111; Some 1111]] /\
+          map (fun b => map (fun k => option_map o_asg (lookup k b)) [0; 1; 2]%nat) rowsB
+            = [[Some 1; Some 111; Some 1111]; [Some 1; Some 100; Some 1000]; [Some 1; Some 111; Some 1111]] /\
+          map (fun a => map (fun k => option_map o_direct (lookup k a)) [0; 1; 2; 3]%nat) rowsA
+            = [[Some true; Some false; Some true; Some true]; [Some true; Some false; Some true; Some true];
+               [Some true; Some false; Some true; Some true]] /\
+          spec_c17 ex_tree [0; 2; 3]%nat 3 rowsA = true
+      | _, _ => False
+      end
+  | TErr _ => False
+  end.
+Proof. vm_compute. repeat split; reflexivity. Qed.
+
+(* flatten: only the leaf level is voted, everything above is the leaf's ancestor *)
+Example c17_example_flatten :
+  match ex_run ex_tree {| cfg_drop := None; cfg_flatten := true |} ex_tb [5; 6] 0%nat,
+        ex_run [leaf_level ex_tree] {| cfg_drop := None; cfg_flatten := false |} (Markers.flatten_table ex_tb) [5; 6] 0%nat with
+  | TOk (rowsA, gA), TOk (rowsB, gB) =>
+      gA = gB /\
+      map (fun a => map (fun k => option_map o_asg (lookup k a)) [0; 1; 2; 3]%nat) rowsA
+        = [[Some 1; Some 11; Some 111; Some 1111]; [Some 1; Some 10; Some 100; Some 1000]] /\
+      map (fun b => option_map o_asg (lookup 0 b)) rowsB = [Some 1111; Some 1000] /\
+      map (fun a => map (fun k => option_map o_direct (lookup k a)) [0; 1; 2; 3]%nat) rowsA
+        = [[Some false; Some false; Some false; Some true]; [Some false; Some false; Some false; Some true]] /\
+      spec_c17 ex_tree [3]%nat 2 rowsA = true
+  | _, _ => False
+  end.
+Proof. vm_compute. repeat split; reflexivity. Qed.
+
+(* an absent level (index 7), the leaf level (rejected), and the reduction itself *)
+Example c17_example_reduce :
+  ex_run ex_tree {| cfg_drop := Some 7%nat; cfg_flatten := false |} ex_tb [5; 6] 0%nat
+    = ex_run ex_tree {| cfg_drop := None; cfg_flatten := false |} ex_tb [5; 6] 0%nat /\
+  ex_run ex_tree {| cfg_drop := Some 3%nat; cfg_flatten := false |} ex_tb [5; 6] 0%nat = TErr E_LEAF /\
+  option_map snd (match reduce ex_tree {| cfg_drop := Some 1%nat; cfg_flatten := false |} with TOk r => Some r | TErr _ => None end)
+    = Some [0; 2; 3]%nat /\
+  option_map snd (match reduce ex_tree {| cfg_drop := Some 1%nat; cfg_flatten := true |} with TOk r => Some r | TErr _ => None end)
+    = Some [3]%nat.
+Proof. vm_compute. repeat split; reflexivity. Qed.
